@@ -42,79 +42,57 @@ Example C18_mfr_inhabited :
             /\ length r = 6%nat.
 Proof. eexists. vm_compute. split; reflexivity. Qed.
 
-(* SpooledStringIO.  FULL STATEMENT (does not hold, see C18_string_lines_refuted):
-     forall max chunk ops r, 1 <= chunk -> Forall op_valid ops ->
-       ref_run KString rf_empty ops = Some r -> ss_run (ss_init max chunk) ops = r.
-   PROVED: the same under the guard of the open finding C18-line-boundaries -
-   no written character is a line break other than "\n" (\r \v \f \x1c-\x1e
-   \x85 U+2028 U+2029), or the history has no readline/readlines/next/list/
-   iteration call.  For every max_size, every READ_CHUNK_SIZE >= 1 and every
-   history of appending writes (characters < 0x200000, which covers all of
-   Unicode), read(n)/read(), readline, readlines, next, list, iteration, seeks to
-   any position >= 0 (past the end of the data too), tell, getvalue and len, the values returned and tell() after
-   every call are those of the reference text file io.StringIO, positions
-   counting code points - the UTF-8 stream, the StreamReader's byte/character/
-   line buffers and its look-ahead, the rollover and the re-reading seek are all
-   inside the model. *)
-Theorem C18_string_partial : forall (max chunk : nat) (ops : list fop) (r : list step_obs),
+(* SpooledStringIO.  For every max_size, every READ_CHUNK_SIZE >= 1 and every history
+   of appending writes / writelines (characters < 0x200000, which covers all of
+   Unicode), explicit rollover()/fileno(), read(n)/read(), readline(limit),
+   readlines(hint), next, list, iteration, seeks to any position >= 0 (past the end
+   of the data too), tell, getvalue and len, the values returned and tell() after
+   every call are those of the reference text file io.StringIO, positions counting
+   code points - for EVERY text: since the repair of C18-line-boundaries a line ends
+   at "\n" and nowhere else.  The UTF-8 stream, the StreamReader's byte/character
+   buffers and its look-ahead, the hand-back of characters by readline, the rollover
+   and the re-reading seek are all inside the model. *)
+Theorem C18_string : forall (max chunk : nat) (ops : list fop) (r : list step_obs),
   (1 <= chunk)%nat -> Forall op_valid ops ->
-  writes_odd_break ops = false \/ existsb is_line_op ops = false ->
   ref_run KString rf_empty ops = Some r -> ss_run (ss_init max chunk) ops = r.
 Proof. exact string_refines_reference. Qed.
-Print Assumptions C18_string_partial.
+Print Assumptions C18_string.
 
-Theorem C18_string_max_independent_partial :
+Theorem C18_string_max_independent :
   forall (max1 max2 chunk1 chunk2 : nat) (ops : list fop) (r : list step_obs),
   (1 <= chunk1)%nat -> (1 <= chunk2)%nat -> Forall op_valid ops ->
-  writes_odd_break ops = false \/ existsb is_line_op ops = false ->
   ref_run KString rf_empty ops = Some r ->
   ss_run (ss_init max1 chunk1) ops = ss_run (ss_init max2 chunk2) ops.
 Proof. exact string_max_independent. Qed.
-Print Assumptions C18_string_max_independent_partial.
+Print Assumptions C18_string_max_independent.
 
 (* the same at the READ_CHUNK_SIZE the source has today (Gen/C18_Gen.v is regenerated
    from /repo/boltons/ioutils.py on every run): the side condition 1 <= chunk is
    discharged for that value *)
-Theorem C18_string_source_chunk_partial : forall (max : nat) (ops : list fop) (r : list step_obs),
+Theorem C18_string_source_chunk : forall (max : nat) (ops : list fop) (r : list step_obs),
   Forall op_valid ops ->
-  writes_odd_break ops = false \/ existsb is_line_op ops = false ->
   ref_run KString rf_empty ops = Some r ->
   ss_run (ss_init max (N.to_nat gen_read_chunk_size)) ops = r.
 Proof. exact string_refines_reference_at_source_chunk. Qed.
-Print Assumptions C18_string_source_chunk_partial.
+Print Assumptions C18_string_source_chunk.
 
-(* multi-byte characters of every UTF-8 length, a rollover in the middle
+(* multi-byte characters of every UTF-8 length, \r, U+2028 and \x85 in the text, a rollover in the middle
    (max_size 9), a read that leaves a character in the reader's look-ahead
    followed by an explicit rollover() and by len, line calls: the hypotheses are met *)
 Definition c18_text_example : list fop :=
   [Write [97;98;8212;99;10;100]; Seek 0 0; Read (Some 3%nat); Rollover; Read (Some 1%nat); Len; Read None;
-   WriteLines [[233;128512];[];[10;2048]]; Seek 2 0; ReadLine None; Next; ListAll; Seek 0 2; Seek 1 0; IterAll;
+   WriteLines [[233;13;128512];[];[10;2048;8232;133]]; Seek 2 0; ReadLine None; ReadLine (Some 2%nat); Next; ListAll; Seek 0 2; Seek 1 0; IterAll;
    Seek 3 0; ReadLines 0; GetValue].
 
 Example C18_string_inhabited :
-  Forall op_valid c18_text_example /\ writes_odd_break c18_text_example = false /\
-  exists r, ref_run KString rf_empty c18_text_example = Some r /\ length r = 18%nat
+  Forall op_valid c18_text_example /\
+  exists r, ref_run KString rf_empty c18_text_example = Some r /\ length r = 19%nat
             /\ ss_run (ss_init 9 3) c18_text_example = r.
 Proof.
-  split; [|split; [reflexivity|]].
+  split.
   - repeat constructor; unfold uvalid; lia.
   - eexists. vm_compute. repeat split; reflexivity.
 Qed.
-
-(* outside the guard the statement fails: 'a\rb\n', seek(0), readline() gives
-   'a\r' where the reference gives 'a\rb\n' (Appendix B #34; the witness of the
-   open finding, corpus/C18/b34_line_boundaries.json) *)
-Theorem C18_string_lines_refuted :
-  exists (max chunk : nat) (ops : list fop) (r : list step_obs),
-    (1 <= chunk)%nat /\ Forall op_valid ops /\
-    ref_run KString rf_empty ops = Some r /\ ss_run (ss_init max chunk) ops <> r.
-Proof.
-  exists 100%nat, 3%nat, [Write [97;13;98;10]; Seek 0 0; ReadLine None], 
-         [(ONone, 4%nat); (ONat 0, 0%nat); (OData [97;13;98;10], 4%nat)].
-  split; [lia|]. split; [repeat constructor; unfold uvalid; lia|].
-  split; [reflexivity|]. vm_compute. discriminate.
-Qed.
-Print Assumptions C18_string_lines_refuted.
 
 (* How a run transfers the theorems to the code (Check/C18_Check.v): whenever the
    checker finds that the model reproduces a Spooled run (agree), that run equals
@@ -127,14 +105,13 @@ Theorem C18_transfer_bytes : forall ops runs r,
 Proof. exact transfer_bytes. Qed.
 Print Assumptions C18_transfer_bytes.
 
-Theorem C18_transfer_string_partial : forall chunk ops runs r,
+Theorem C18_transfer_string : forall chunk ops runs r,
   (1 <= chunk)%nat -> Forall op_valid ops ->
-  writes_odd_break ops = false \/ existsb is_line_op ops = false ->
   ref_run KString rf_empty ops = Some r ->
   agree_runs (fun max => ss_run (ss_init max chunk) ops) runs = true ->
   Forall (fun g : run_group => spooled_member g -> snd g = r) runs.
 Proof. exact transfer_string. Qed.
-Print Assumptions C18_transfer_string_partial.
+Print Assumptions C18_transfer_string.
 
 Theorem C18_transfer_mfr : forall contents ops obs,
   mref_pre_all ops = true ->
